@@ -181,6 +181,40 @@ theorem C07_drop_current_schema {D Q} (eng : D → Q → Except DuckExc D) (w : 
   refine ⟨by simp [CtxUpdate.apply, hcur], by simp [CtxUpdate.apply, hcur], by simp [CtxUpdate.apply, hcur, hdb], fun hns => ?_⟩
   simp [execCall, CtxUpdate.apply, hcur, hdb, hns]
 
+/-- **Any use of a closed connection**: `commit()`, `rollback()`, a new cursor's `execute`, `execute_string`, `executemany`,
+    `describe` (each: at least one `cursor.execute`), `write_pandas`, and `description` (of a statement whose pre-checks pass)
+    all raise DatabaseError 250002/08003 and change nothing — for every engine. -/
+theorem C07_closed_any_use {D Q} (eng : D → Q → Except DuckExc D) (w : World D) (hcl : w.closed = true) (u : ConnUse Q)
+    (hne : ∀ ss, u = .viaExecute ss → ss ≠ [])
+    (hpre : ∀ c, u = .description c → ¬ (c.noDatabase = true ∧ ¬ w.sess.databaseSet = true) ∧ ¬ (c.noSchema = true ∧ ¬ w.sess.schemaSet = true)) :
+    u.run eng w = (w, .database ⟨250002, "08003"⟩) := by
+  cases u with
+  | viaExecute ss =>
+    cases ss with
+    | nil => exact absurd rfl (hne [] rfl)
+    | cons s rest =>
+      obtain ⟨h1, h2, _⟩ := C07_closed eng w s hcl
+      simp only [ConnUse.run, runExecutes, h1, h2]
+  | writePandas => simp [ConnUse.run, hcl, c250002]
+  | description c =>
+    obtain ⟨hdb, hsc⟩ := hpre c rfl
+    simp only [ConnUse.run, descriptionOutcome, execCall]
+    rw [if_neg hdb, if_neg hsc]
+    simp [hcl, mapExc, c250002]
+
+/-- **CREATE/DROP SCHEMA: the database check follows the parse shape, not IF [NOT] EXISTS**: for both shapes sqlglot produces
+    (normal; table-like for `DROP SCHEMA IF EXISTS`), "names no database" holds exactly when the name has one part — so
+    `CREATE SCHEMA IF NOT EXISTS foo`, `DROP SCHEMA IF EXISTS foo` etc. need a current database like their plain spellings. -/
+theorem C07_schema_ref_shapes (tableLike : Bool) (parts : Nat) :
+    schemaNoDatabase (schemaNode tableLike parts) = decide (parts < 2) ∧
+    schemaNoDatabase (schemaNode tableLike parts) = (unqualified .schema parts).1 := by
+  cases tableLike <;> by_cases h : 2 ≤ parts <;> simp [schemaNoDatabase, schemaNode, unqualified, h] <;> omega
+
+/-- witness: decided from the `exists` flag, `CREATE SCHEMA IF NOT EXISTS foo` (flag set, normal shape, one part) would not
+    need a current database. -/
+theorem C07_schema_check_by_flag_wrong :
+    schemaNoDatabaseByFlag true (schemaNode false 1) = false ∧ schemaNoDatabase (schemaNode false 1) = true := by decide
+
 /-! ### the cause × position table -/
 
 /-- the full statement over the scenario table: every way of referring to something missing or duplicate, at
